@@ -688,6 +688,30 @@ def run_scenario(tree, wpath, sc, maxq=None, world=None):
     inc0 = w.incarnation
     fault_inc = mode.get("inc", 1) if mode["kind"] == "fault" else 1     # which start of the daemon (1 = the first) runs under the fault
     try:
+        for mi, m in [pm for pm in pending if pm[1].get("preplaced_id")]:
+            # a fully pre-processed message put into the queue under a chosen number (message numbers are inode numbers: on file systems with
+            # 64-bit inodes they exceed 2^32, which the scratch file system never hands out). Only plain local / remote recipients.
+            pending.remove((mi, m))
+            n = int(m["preplaced_id"])
+            hh = w.h
+            loc = {x.strip().lower() for x in sc["controls"].get("locals", "").split("\n") if x.strip()}
+            byc = {0: b"", 1: b""}
+            for r in m["rcpts"]:
+                byc[0 if r.rsplit("@", 1)[-1].lower() in loc else 1] += b"T" + L(r) + b"\0"
+            files = {"mess": b"Received: (qmail 1 invoked by uid 4242); 1 Jan 2020 00:00:00 -0000\n" + L(m.get("body", "x\n")), "info": b"F" + L(m["sender"]) + b"\0"}
+            if byc[0]:
+                files["local"] = byc[0]
+            if byc[1]:
+                files["remote"] = byc[1]
+            for name, data in files.items():
+                fp = hh.qpath(name, n)
+                with open(fp, "wb") as f_:
+                    f_.write(data)
+                os.chmod(fp, 0o644 if name == "mess" else 0o600)
+                os.utime(fp, (w.vnow(), w.vnow()))
+            led.accepted(n, "input", L(m["sender"]), [L(r) for r in m["rcpts"]], mi)
+            w._observe_queue()
+            res.classes.add("message_number_beyond_32_bits" if n >= 2 ** 32 else "preplaced_message")
         bl = sc.get("backlog")
         if bl:
             # mail accepted while the daemon was down for a long time ("backlog": {"n": messages, "age": seconds}): the first n messages are
